@@ -70,8 +70,9 @@ class Sim:
       full_digest: bool  — fold every single event (client, file, position) into the event-log digest
     """
 
-    def __init__(self, spec, clients, watchdog_s=60.0):
+    def __init__(self, spec, clients, watchdog_s=60.0, runner=None):
         self.spec = spec
+        self.runner = runner or run_op
         self.clients = clients
         self.scope_prefixes = tuple(spec['scope'])
         self.fault_prefixes = tuple(spec.get('fault_scope') or spec['scope'])
@@ -357,7 +358,7 @@ class Sim:
             for i, op in enumerate(c.ops):
                 self._op_start(c, i)
                 try:
-                    obs = run_op(op, c.env)
+                    obs = self.runner(op, c.env)
                 except SimAbort:
                     obs = 'abort'
                 except SimBudget:
